@@ -1,5 +1,3 @@
 package main
 
-func genCodec(repo string) (string, []string) {
-	return "(* GENERATED — placeholder *)\n", nil
-}
+// genCodec (T-codec) lives in codec.go.
